@@ -176,3 +176,13 @@ Proof.
   - eexists. split; [vm_compute; reflexivity|]. split; [reflexivity|].
     eexists. split; [vm_compute; reflexivity|]. repeat split.
 Qed.
+
+(* ---- translator tie: the three field tables the theorems above speak of are the ones a translator reads off
+        the current text of _msg_length / _msg_pack / _msg_unpack in m_msg.c (order, widths from m_msg.h,
+        _alloc/_copy pairing, the addr_len bound) — regenerated on every run --------------------------------- *)
+From MV Require Import MsgSource.
+From MV.gen Require Import GenMsgTables.
+Theorem C14_tables_are_the_source : forall t : mtype,
+  src_len_fields t = len_fields t /\ src_pack_fields t = pack_fields t /\ src_unpack_fields t = unpack_fields t.
+Proof. exact tables_match_source. Qed.
+Print Assumptions C14_tables_are_the_source.
